@@ -664,6 +664,22 @@ struct visit_children_tag
     explicit visit_children_tag() = default;
 };
 
+class size_bytes_checked_visitor;
+
+// Tells generated `visit_children` whether `Visitor` looks at fields at all.
+// The visitor behind `sbepp::size_bytes_checked` validates only `blockLength`
+// so fields, which may lie beyond the validated part of an untrusted buffer,
+// must not be accessed on its behalf.
+template<typename Visitor>
+struct visits_fields : std::true_type
+{
+};
+
+template<>
+struct visits_fields<size_bytes_checked_visitor> : std::false_type
+{
+};
+
 struct enum_to_str_tag
 {
     explicit enum_to_str_tag() = default;
